@@ -1,159 +1,3 @@
-import PpciVerif.Model.Proto
-import PpciVerif.Spec.CInt
-import PpciVerif.Model.CEval
-import PpciVerif.Model.CEvalLegacy
-import PpciVerif.Model.CSyntax
-/-! Line-protocol driver for C27 / C28.
-
-Expressions are sent in prefix form (words separated by blanks):
-  `L <d|x> <n|u|l|ul|ll|ull> <value>`   integer constant (decimal | hex/octal, suffix)
-  `C <value>`                           character constant
-  `U <neg|bnot|lnot|plus> e`  `B <add|...|lor> e e`  `Q e e e`  `K <ty> e`
-Types: char schar uchar short ushort int uint long ulong llong ullong.
-
-Requests (model = `Model.CEval` on `Model.CSyntax.render e`, spec = `Spec.CInt`):
-  init <ty> e | case <ty> e | enum e | arr e          model of the four users
-  sinit <ty> e | scase <ty> e | senum e | sarr e       the specification (`ok none` = undefined / no type)
-  linit <ty> e                                        the pre-fix pipeline (`Model.CEvalLegacy`)
-  mtype e | stype e                                   type given by ppci's semantics / by C
-  pack <ty> <int> | lpack <ty> <int>                  `CContext.pack` (fixed / pre-fix) on a raw value
-  wrap <ty> <int> | conv <ty> <int>                   `to_integer_type` / `Spec.CInt.convert`
--/
-open Proto
-open Spec.CInt (Expr Base Suffix UnOp BinOp)
-
-def specTy? : String → Option Spec.CInt.Ty
-  | "char" => some .char | "schar" => some .schar | "uchar" => some .uchar
-  | "short" => some .short | "ushort" => some .ushort | "int" => some .int | "uint" => some .uint
-  | "long" => some .long | "ulong" => some .ulong | "llong" => some .llong | "ullong" => some .ullong
-  | _ => none
-
-def specTyName : Spec.CInt.Ty → String
-  | .char => "char" | .schar => "schar" | .uchar => "uchar" | .short => "short" | .ushort => "ushort"
-  | .int => "int" | .uint => "uint" | .long => "long" | .ulong => "ulong" | .llong => "llong" | .ullong => "ullong"
-
-def modelTyName : Model.CEval.Ty → String
-  | .char => "char" | .uchar => "uchar" | .short => "short" | .ushort => "ushort"
-  | .int => "int" | .uint => "uint" | .long => "long" | .ulong => "ulong" | .llong => "llong" | .ullong => "ullong"
-
-def suffix? : String → Option Suffix
-  | "n" => some .none | "u" => some .u | "l" => some .l | "ul" => some .ul | "ll" => some .ll | "ull" => some .ull
-  | _ => none
-
-def unop? : String → Option UnOp
-  | "neg" => some .neg | "bnot" => some .bnot | "lnot" => some .lnot | "plus" => some .plus
-  | _ => none
-
-def binop? : String → Option BinOp
-  | "add" => some .add | "sub" => some .sub | "mul" => some .mul | "div" => some .div | "mod" => some .mod
-  | "shl" => some .shl | "shr" => some .shr | "band" => some .band | "bor" => some .bor | "bxor" => some .bxor
-  | "lt" => some .lt | "gt" => some .gt | "le" => some .le | "ge" => some .ge | "eq" => some .eq | "ne" => some .ne
-  | "land" => some .land | "lor" => some .lor
-  | _ => none
-
-/-- prefix parser: returns the expression and the unread words -/
-partial def parseE : List String → Option (Expr × List String)
-  | "L" :: b :: s :: v :: rest => do
-      let base ← (if b == "d" then some Base.dec else if b == "x" then some Base.hexoct else none)
-      let suf ← suffix? s
-      let n ← nat? v
-      pure (.lit base suf n, rest)
-  | "C" :: v :: rest => do
-      let n ← nat? v
-      pure (.chr n, rest)
-  | "U" :: op :: rest => do
-      let o ← unop? op
-      let (a, r) ← parseE rest
-      pure (.un o a, r)
-  | "B" :: op :: rest => do
-      let o ← binop? op
-      let (a, r) ← parseE rest
-      let (b, r) ← parseE r
-      pure (.bin o a b, r)
-  | "Q" :: rest => do
-      let (c, r) ← parseE rest
-      let (a, r) ← parseE r
-      let (b, r) ← parseE r
-      pure (.cond c a b, r)
-  | "K" :: t :: rest => do
-      let τ ← specTy? t
-      let (a, r) ← parseE rest
-      pure (.cast τ a, r)
-  | _ => none
-
-def parseAll (ws : List String) : Option Expr :=
-  match parseE ws with
-  | some (e, []) => some e
-  | _ => none
-
-def showBytes : Except Model.CEval.Err (List Nat) → String
-  | .ok bs => "ok " ++ toHex bs
-  | .error e => "err " ++ e.name
-
-def showInt : Except Model.CEval.Err Int → String
-  | .ok v => s!"ok {v}"
-  | .error e => "err " ++ e.name
-
-def showOptBytes : Option (List Nat) → String
-  | some bs => "ok " ++ toHex bs
-  | none => "ok none"
-
-def showOptInt : Option Int → String
-  | some v => s!"ok {v}"
-  | none => "ok none"
-
-open Model.CSyntax in
-def step (line : String) : String :=
-  match words line with
-  | "init" :: t :: ws => match specTy? t, parseAll ws with
-      | some τ, some e => showBytes (Model.CEval.initializer (ofSpecTy τ) (render e))
-      | _, _ => "bad-op"
-  | "linit" :: t :: ws => match specTy? t, parseAll ws with
-      | some τ, some e => showBytes (Model.CEvalLegacy.initializer (ofSpecTy τ) (render e))
-      | _, _ => "bad-op"
-  | "sinit" :: t :: ws => match specTy? t, parseAll ws with
-      | some τ, some e => showOptBytes (Spec.CInt.initBytes τ e)
-      | _, _ => "bad-op"
-  | "case" :: t :: ws => match specTy? t, parseAll ws with
-      | some τ, some e => showInt (Model.CEval.caseLabel (ofSpecTy τ) (render e))
-      | _, _ => "bad-op"
-  | "scase" :: t :: ws => match specTy? t, parseAll ws with
-      | some τ, some e => showOptInt (Spec.CInt.caseLabel τ e)
-      | _, _ => "bad-op"
-  | "enum" :: ws => match parseAll ws with
-      | some e => showInt (Model.CEval.enumerator (render e))
-      | _ => "bad-op"
-  | "senum" :: ws => match parseAll ws with
-      | some e => showOptInt (Spec.CInt.enumerator e)
-      | _ => "bad-op"
-  | "arr" :: ws => match parseAll ws with
-      | some e => showInt (Model.CEval.arraySize (render e))
-      | _ => "bad-op"
-  | "sarr" :: ws => match parseAll ws with
-      | some e => showOptInt (Spec.CInt.arrayBound e)
-      | _ => "bad-op"
-  | "mtype" :: ws => match parseAll ws with
-      | some e => match Model.CEval.elaborate (render e) with
-          | .ok t => "ok " ++ modelTyName t.ty
-          | .error er => "err " ++ er.name
-      | _ => "bad-op"
-  | "stype" :: ws => match parseAll ws with
-      | some e => match Spec.CInt.typeOf e with
-          | some τ => "ok " ++ specTyName τ
-          | none => "ok none"
-      | _ => "bad-op"
-  | ["pack", t, v] => match specTy? t, int? v with
-      | some τ, some z => showBytes (Model.CEval.pack (ofSpecTy τ) z)
-      | _, _ => "bad-op"
-  | ["lpack", t, v] => match specTy? t, int? v with
-      | some τ, some z => showBytes (Model.CEvalLegacy.pack (ofSpecTy τ) z)
-      | _, _ => "bad-op"
-  | ["wrap", t, v] => match specTy? t, int? v with
-      | some τ, some z => s!"ok {Model.CEval.toIntegerType (ofSpecTy τ) z}"
-      | _, _ => "bad-op"
-  | ["conv", t, v] => match specTy? t, int? v with
-      | some τ, some z => s!"ok {Spec.CInt.convert τ z}"
-      | _, _ => "bad-op"
-  | _ => "bad-op"
-
-def main : IO Unit := mainLoop step
+import PpciVerif.Model.CDriver
+/-! Line-protocol driver for C27 (requests: see `Model/CDriver.lean`). -/
+def main : IO Unit := Proto.mainLoop Model.CDriver.step
